@@ -279,6 +279,51 @@ class Effects:
                         guards[name] = (lambda node, ids=body_ids, prev=prev: id(node) in ids or (prev(node) if prev else False))
         return guards
 
+    def _exception_str_methods(self):
+        if getattr(self, '_str_methods', None) is None:
+            import copy
+            out = []
+            for nm in ('value', 'runtime', 'parser', 'model', 'data', 'library', 'options'):
+                try:
+                    m = self.repo.module(nm)
+                except Exception:
+                    continue
+                for cls in m.tree.body:
+                    if isinstance(cls, ast.ClassDef) and (cls.name.endswith('Error') or any('Exception' in norm(b) or 'Error' in norm(b) for b in cls.bases)):
+                        for meth in cls.body:
+                            if isinstance(meth, ast.FunctionDef) and meth.name in ('__str__', '__repr__', '__format__'):
+                                c = copy.copy(meth)
+                                c.name = f'{cls.name}.{meth.name}'
+                                out.append((m, c))
+            self._str_methods = out
+        return self._str_methods
+
+    def _implicit_str_calls(self, mod, func):
+        meths = self._exception_str_methods()
+        if not meths:
+            return
+        for n in walk_no_nested(func):
+            subj = None
+            if isinstance(n, ast.FormattedValue):
+                subj = n.value
+            elif isinstance(n, ast.Call) and isinstance(n.func, ast.Name) and n.func.id in ('str', 'repr', 'format') and n.args:
+                subj = n.args[0]
+            elif isinstance(n, ast.BinOp) and isinstance(n.op, ast.Mod) and isinstance(n.left, ast.Constant) and isinstance(n.left.value, str):
+                subj = n.right
+            if not isinstance(subj, ast.Name):
+                continue
+            # is the name bound by an enclosing `except ... as name`?
+            cur = getattr(n, '_parent', None)
+            bound = False
+            while cur is not None and cur is not func:
+                if isinstance(cur, ast.ExceptHandler) and cur.name == subj.id:
+                    bound = True
+                    break
+                cur = getattr(cur, '_parent', None)
+            if bound:
+                for m, meth in meths:
+                    yield n, m, meth
+
     # ---- propagation
     def escapes(self, mod, func, depth=0):
         """list of Site escaping `func`"""
@@ -312,6 +357,12 @@ class Effects:
                 for site in self.escapes(cmod, cfunc, depth + 1):
                     if caught_by(n, site.exc, func) is None:
                         out.append(Site(site.mod, site.func, site.node, site.exc, site.why, via=(f'{mod.name}.{func.name}:{getattr(n, "lineno", "?")}',) + tuple(site.via)))
+        # implicit calls: formatting a caught exception (f-string, str(), format(), %) runs the __str__ / __repr__ / __format__ its class defines
+        for n, cmod, meth in self._implicit_str_calls(mod, func):
+            for site in self.escapes(cmod, meth, depth + 1):
+                if caught_by(n, site.exc, func) is None:
+                    out.append(Site(site.mod, site.func, site.node, site.exc, site.why + f' (run implicitly when the caught exception is formatted: {norm(n)[:40]})',
+                                    via=(f'{mod.name}.{func.name}:{getattr(n, "lineno", "?")}',) + tuple(site.via)))
         self.in_progress.discard(key)
         # de-duplicate
         seen = set()
